@@ -13,9 +13,14 @@ import z3
 
 from .symx import Inconclusive, SymBool, SymInt
 
-DD, N1, N2, SLJ = 0, 1, 2, 3
-TOK = {DD: "..", N1: "a", N2: "b", SLJ: "shards_list.json"}
+DD, N1, N2, SLJ, WIN = 0, 1, 2, 3, 4
+# WIN: one harmless POSIX file name that would be a traversal if somebody re-parsed it with Windows separators
+TOK = {DD: "..", N1: "a", N2: "b", SLJ: "shards_list.json", WIN: "w\\..\\..\\..\\x"}
+ROOTS = {0: "", 1: "/", 2: "//"}  # POSIX: exactly two leading slashes are a root of their own
 ALPHA = len(TOK)
+
+
+REALISED: dict = {}  # concrete string produced at a C boundary -> the SymPath it came from
 
 
 class SymStr:
@@ -79,7 +84,8 @@ class SymParts:
         p = self.p
         cases = []
         if idx == 0:
-            cases.append((p.absolute, "/"))
+            cases.append((p.rootk == 1, "/"))
+            cases.append((p.rootk == 2, "//"))
         for j in (idx, idx - 1):
             if 0 <= j < p.K:
                 sel = z3.And(p.absolute if j == idx - 1 else z3.Not(p.absolute), j < p.L)
@@ -106,7 +112,9 @@ class SymParts:
         p = self.p
         alts = [z3.And(i < p.L, p.c[i] == k) for i in range(p.K) for k, t in TOK.items() if t == o]
         if o == "/":
-            alts.append(p.absolute)
+            alts.append(p.rootk == 1)
+        if o == "//":
+            alts.append(p.rootk == 2)
         return bool(SymBool(p.e, z3.Or(alts + [z3.BoolVal(False)])))
 
     def __eq__(self, o):
@@ -123,13 +131,15 @@ class SymPath:
         self.K = K
         self.sym_name = name
         if _raw is not None:
-            self.L, self.c, self.absolute = _raw
+            self.L, self.c, self.rootk = _raw
+            self.absolute = self.rootk > 0
             self.K = len(self.c)
             return
         L = e.fresh_int(f"{name}_len", 0, K)
         self.L = L.z
         self.c = [e.fresh_int(f"{name}_part{i}", 0, ALPHA - 1).z for i in range(K)]
-        self.absolute = e.fresh_bool(f"{name}_abs").z
+        self.rootk = e.fresh_int(f"{name}_root", 0, 2).z
+        self.absolute = self.rootk > 0
 
     # --- what the library uses
     @property
@@ -150,7 +160,7 @@ class SymPath:
     @property
     def parent(self):
         newL = z3.If(self.L > 0, self.L - 1, 0)
-        return SymPath(self.e, _raw=(newL, self.c, self.absolute))
+        return SymPath(self.e, _raw=(newL, self.c, self.rootk))
 
     def _concat(self, other_tokens_front=(), other_tokens_back=()):
         """Path with concrete tokens (indices into TOK or ('lit', str)) prepended / appended."""
@@ -171,7 +181,14 @@ class SymPath:
     __str__ = __repr__ = lambda s: f"<sympath {s.sym_name}>"
 
     def __fspath__(self):
-        raise Inconclusive("a symbolic path reached os.fspath (C boundary)")
+        """C boundary (os.fspath): realise the whole path - a finite fork over every part sequence."""
+        root = ROOTS[self.e.realize(self.rootk)]
+        n = self.e.realize(self.L)
+        toks = [TOK[self.e.realize(self.c[i])] for i in range(n)]
+        out = (root + "/".join(toks)) or "."
+        REALISED[out] = self
+        REALISED[out.replace("\\", "/")] = self
+        return out
 
     def __hash__(self):
         return id(self)
@@ -197,13 +214,13 @@ class SymPath:
         """The concrete path string for a model (dict name -> value)."""
         L = int(model.get(f"{self.sym_name}_len", 0))
         toks = [TOK[int(model.get(f"{self.sym_name}_part{i}", 0))] for i in range(L)]
-        return ("/" if model.get(f"{self.sym_name}_abs", False) else "") + "/".join(toks)
+        return ROOTS[int(model.get(f"{self.sym_name}_root", 0))] + "/".join(toks)
 
 
 def concrete_from_model(name, model, K=3):
     L = int(model.get(f"{name}_len", 0))
     toks = [TOK[int(model.get(f"{name}_part{i}", 0))] for i in range(L)]
-    s = ("/" if model.get(f"{name}_abs", False) else "") + "/".join(toks)
+    s = ROOTS[int(model.get(f"{name}_root", 0))] + "/".join(toks)
     return s or "."
 
 
@@ -288,7 +305,7 @@ class JoinedSym:
         return self
 
 
-def selftest():
+def selftest(nmax=3):
     """Differential test of the abstraction against the real pathlib / os.path on all part sequences <= 3."""
     import itertools
     import os.path
@@ -301,13 +318,18 @@ def selftest():
         if any(p in (".", "") for p in pathlib.PurePosixPath(s).parts):
             problems.append(f"pathlib keeps '.'/'' in parts of {s!r}")
     # (2) model vs pathlib on every concrete part sequence
-    for ab in (False, True):
-        for n in range(0, 4):
+    for rk in (0, 1, 2):
+        ab = rk > 0
+        for n in range(0, nmax + 1):
             for seq in itertools.product(range(ALPHA), repeat=n):
                 e = Engine()
                 p = SymPath(e, "p", K=3)
-                e.solver.add(p.L == n, p.absolute == ab, *[p.c[i] == seq[i] for i in range(n)])
-                real = pathlib.PurePosixPath(("/" if ab else "") + "/".join(TOK[t] for t in seq))
+                e.solver.add(p.L == n, p.rootk == rk, *[p.c[i] == seq[i] for i in range(n)])
+                real = pathlib.PurePosixPath(ROOTS[rk] + "/".join(TOK[t] for t in seq))
+                if rk == 2 and n == 0:
+                    continue  # "//" alone: pathlib keeps it as root; no names to compare
+                if os.fspath(p) != (str(real) if str(real) != "" else "."):
+                    problems.append(f"fspath {real}: {os.fspath(p)!r}")
                 if bool(p.name == real.name) is not True:
                     problems.append(f"name {real}")
                 if bool(p.is_absolute()) != real.is_absolute():
